@@ -8,7 +8,10 @@ feeds the sub-query and the placement of the sub image (C01.b); feature-info coo
 the WMTS handler converts the public tile address (shared with C02.a), the click coordinate
 is transformed with the same SRS pair as the bbox, and InfoQuery.coord maps the pixel
 rectangle to the ground bbox (C01.c); axis discipline of the placement arithmetic (C01.d,
-shared qualifier system of C03.a)."""
+shared qualifier system of C03.a).
+Added in round 4: bbox_equals compares all four edges, each with the same edge of the other
+rectangle (C01.i); the rectangle clipped at the grid border (tile_bbox limit=True) is only used for
+KML descriptions, never as the extent of an image (C01.j)."""
 import ast
 
 from ..engine import rule, run_property
